@@ -198,8 +198,19 @@ def aux_values_check(ctx, g, ir2, auxinfo, ir, tag):
         # nodes attached to the original IR must come back as nodes (of the loaded IR); everything else as plain UUIDs
         want = retag_attached(want, {n.uuid.int for n in content.reach(ir)})
         if want != have:
-            ctx.add("oracle", "roundtrip:aux-value", "AuxData table %r decodes to a different value after load" % key,
-                    {"tag": tag, "type": auxval.type_str(t), "want": repr(want)[:300], "have": repr(have)[:300]})
+            def untag(sx):
+                if isinstance(sx, list):
+                    if len(sx) == 2 and sx[0] in (4, 5) and isinstance(sx[1], int):
+                        return [4, sx[1]]
+                    return [untag(x) for x in sx]
+                return sx
+            if auxval.canon(untag(want)) == auxval.canon(untag(have)):
+                # the same value except for WHICH entries are node objects and which plain UUIDs: reference resolution (C09)
+                ctx.add("oracle", "roundtrip:aux-identity", "AuxData table %r: after load the UUID entries naming attached nodes are not exactly the ones that come "
+                        "back as node objects" % key, {"tag": tag, "type": auxval.type_str(t), "want": repr(want)[:300], "have": repr(have)[:300]})
+            else:
+                ctx.add("oracle", "roundtrip:aux-value", "AuxData table %r decodes to a different value after load" % key,
+                        {"tag": tag, "type": auxval.type_str(t), "want": repr(want)[:300], "have": repr(have)[:300]})
         for n in walk_nodes(g, got):
             if by_uuid.get(n.uuid) is not n:
                 ctx.add("oracle", "roundtrip:aux-identity", "AuxData table %r: a UUID entry decodes to a node that is not the attached object" % key, {"tag": tag})
@@ -275,7 +286,9 @@ def roundtrip_stream(ctx, g, batch, ir, auxinfo, bs, tag):
     if ab is not True or ba is not True:
         ctx.add("oracle", "roundtrip:deep_eq", "original.deep_eq(loaded)=%s loaded.deep_eq(original)=%s" % (ab, ba), {"tag": tag, "file": bs.hex()})
     aux_values_check(ctx, g, ir2, auxinfo, ir, tag)
-    for prob in content.identity_check(g, ir2) + content.coherence(g, ir2):
+    for prob in content.identity_check(g, ir2):
+        ctx.add("oracle", "roundtrip:identity", prob, {"tag": tag, "file": bs.hex()})
+    for prob in content.coherence(g, ir2):
         ctx.add("oracle", "roundtrip:coherence", prob, {"tag": tag, "file": bs.hex()})
     if auxinfo:
         # the same file loaded once more in this process: every reference and every AuxData UUID/Offset entry of the SECOND IR must
@@ -285,7 +298,7 @@ def roundtrip_stream(ctx, g, batch, ir, auxinfo, bs, tag):
             n0 = len(ctx.findings)
             aux_values_check(ctx, g, ir3, auxinfo, ir, tag + ":second-load")
             for prob in content.identity_check(g, ir3):
-                ctx.add("oracle", "roundtrip:coherence", "second load of the same file: " + prob, {"tag": tag, "file": bs.hex()})
+                ctx.add("oracle", "roundtrip:identity", "second load of the same file: " + prob, {"tag": tag, "file": bs.hex()})
             for f in ctx.findings[n0:]:
                 f.what = "on a second load of the same file in one process: " + f.what
                 if isinstance(f.replay, dict):
